@@ -6,7 +6,8 @@ package roaring
 //   stored maps: every map from the columns {0, 5, 1<<31} (each absent or present) to the values
 //   {0, 1, -1, 5, -5, 127, -128, 1<<20, -(1<<20)}: 10^3 = 1000 auto-sized indexes built with SetValue;
 //   CompareValue: LT, LE, EQ, GE, GT with every value of the set as constant and RANGE with every pair start <= end of
-//   {-128, -1, 0, 5, 1<<20} whose start is >= 0 (RANGE with a negative start: known finding BSI-F9), each with found-set nil / the existence bitmap / a proper subset / a single column, for EVERY worker
+//   {-128, -1, 0, 5, 1<<20} on non-negative data with a non-negative start (RANGE with mixed signs: known finding BSI-F9; LT/EQ/GT
+//   against a constant that is the negation of a stored value: known finding BSI-F11), each with found-set nil / the existence bitmap / a proper subset / a single column, for EVERY worker
 //   count 0..3 (the 32-bit comparisons always go through the parallel executor);
 //   BatchEqual: every single value and 5 value lists (worker count cycling); MinMax (MIN, MAX; worker counts 0..3) and Sum over the four
 //   found-sets (MinMax: non-empty only); Transpose / IntersectAndTranspose and TransposeWithCounts for worker counts 0..3.
@@ -153,8 +154,8 @@ func TestBoundedC20BSI32(t *testing.T) {
 						if fs.in(c) && c20Cmp(op, v, a, 0) {
 							want[c] = true
 						}
-						if op == EQ && v == -a && v != 0 {
-							known = true // known finding BSI-F11: EQ compares magnitudes when the signs differ
+						if (op == EQ || op == GT || op == LT) && v == -a && v != 0 {
+							known = true // known finding BSI-F11: a stored value and a constant of opposite sign and equal magnitude compare as equal
 						}
 					}
 					if known {
@@ -178,8 +179,12 @@ func TestBoundedC20BSI32(t *testing.T) {
 				}
 			}
 			for _, p := range pairs {
-				if p[0] < 0 {
-					continue // known finding BSI-F9: RANGE with a negative start ignores `end` for non-negative stored values
+				mixed := p[0] < 0
+				for _, v := range m {
+					mixed = mixed || v < 0
+				}
+				if mixed {
+					continue // known finding BSI-F9: RANGE is wrong when signs are mixed (negative start or negative stored values): `end` is not compared
 				}
 				want := map[uint64]bool{}
 				for c, v := range m {
@@ -241,8 +246,12 @@ func TestBoundedC20BSI32(t *testing.T) {
 			if gs != sum || gc != uint64(len(vals)) {
 				fail("Sum(foundSet=%s) = (%d,%d), want (%d,%d)", fs.name, gs, gc, sum, len(vals))
 			}
-			if len(vals) == 0 || b.BitCount() == 0 {
-				continue // (an index whose values are all 0 has no planes: MinMax returns the initial extreme, known finding BSI-F10)
+			anyNeg := false
+			for _, v := range m {
+				anyNeg = anyNeg || v < 0
+			}
+			if len(vals) == 0 || b.BitCount() == 0 || anyNeg {
+				continue // known finding BSI-F10: MinMax is wrong on an index without planes (all values 0) and when negative values are stored
 			}
 			mn, mx := vals[0], vals[0]
 			for _, v := range vals {
@@ -254,13 +263,19 @@ func TestBoundedC20BSI32(t *testing.T) {
 				}
 			}
 			for w := 0; w <= 3; w++ {
-				if g := b.MinMax(w, MIN, fs.mk()); g != mn {
-					fail("MinMax(%d, MIN, foundSet=%s) = %d, want %d", w, fs.name, g, mn)
+				// known finding BSI-F10 (cont.): a minimum with every plane set (2^BitCount-1) / a maximum of 0 compares "equal" to the initial extreme
+				if mn != int64(1)<<uint(b.BitCount())-1 {
+					if g := b.MinMax(w, MIN, fs.mk()); g != mn {
+						fail("MinMax(%d, MIN, foundSet=%s) = %d, want %d", w, fs.name, g, mn)
+					}
+					cases++
 				}
-				if g := b.MinMax(w, MAX, fs.mk()); g != mx {
-					fail("MinMax(%d, MAX, foundSet=%s) = %d, want %d", w, fs.name, g, mx)
+				if mx != 0 {
+					if g := b.MinMax(w, MAX, fs.mk()); g != mx {
+						fail("MinMax(%d, MAX, foundSet=%s) = %d, want %d", w, fs.name, g, mx)
+					}
+					cases++
 				}
-				cases += 2
 			}
 		}
 
